@@ -103,8 +103,11 @@ END_PROGRAM
         r#"
 TYPE Rec : STRUCT a : ARRAY[1..2, 0..1] OF DINT; f : LREAL; e : BOOL; END_STRUCT END_TYPE
 PROGRAM P
-VAR recs : ARRAY[0..2] OF Rec; one : Rec; grid : ARRAY[1..2, 0..1] OF DINT; j : INT; sum : DINT; END_VAR
-VAR_EXTERNAL gx : DINT; END_VAR
+VAR recs : ARRAY[0..2] OF Rec; one : Rec; grid : ARRAY[1..2, 0..1] OF DINT; j : INT; sum : DINT; vec : ARRAY[1..3] OF INT; neg : ARRAY[-2..2] OF INT; END_VAR
+VAR_EXTERNAL gx : DINT; ga : ARRAY[1..3] OF INT; END_VAR
+vec[2] := INT#7;
+neg[-1] := INT#3;
+ga[3] := INT#9;
 REPEAT
   j := j + INT#1;
   grid[1, 0] := gx;
@@ -113,7 +116,7 @@ UNTIL j >= INT#3 END_REPEAT;
 sum := gx + DINT#1;
 END_PROGRAM
 CONFIGURATION C
-VAR_GLOBAL gx : DINT := 4; gy AT %QD4 : DWORD; END_VAR
+VAR_GLOBAL gx : DINT := 4; gy AT %QD4 : DWORD; ga : ARRAY[1..3] OF INT; END_VAR
 TASK T1 (INTERVAL := T#1ms, PRIORITY := 3);
 PROGRAM I1 WITH T1 : P;
 END_CONFIGURATION
@@ -485,6 +488,40 @@ fn structure_mutants(m: &BytecodeModule, rng: &mut Rng) -> Vec<(String, Bytecode
         let dup = m3.sections[i].clone();
         m3.sections.push(dup);
         out.push((format!("duplicate-section:{:#x}", m.sections[i].id), m3));
+    }
+    // a task's FB list naming a reference into an array (the compiler emits those for literal-index accesses) whose index
+    // values sit at the extremes: validate only bounds-checks table indices, so these containers validate and are applied
+    let index_refs: Vec<RefEntry> = match m.section(SectionId::RefTable) {
+        Some(SectionData::RefTable(t)) => t.entries.iter().filter(|e| e.segments.iter().any(|s| matches!(s, RefSegment::Index(_)))).cloned().collect(),
+        _ => Vec::new(),
+    };
+    for (ri, base) in index_refs.iter().enumerate().take(12) {
+        for (xi, x) in [i64::MIN, i64::MIN + 1, i64::MIN + 2, i64::MAX, i64::MAX - 1, -1, 1 << 62, -(1 << 62)].iter().enumerate() {
+            for all in [true, false] {
+                let mut e = base.clone();
+                for seg in e.segments.iter_mut() {
+                    if let RefSegment::Index(v) = seg {
+                        for (k, slot) in v.iter_mut().enumerate() {
+                            if all || k == 0 {
+                                *slot = *x;
+                            }
+                        }
+                    }
+                }
+                let mut m2 = m.clone();
+                let mut new_ref = None;
+                if let Some(SectionData::RefTable(t)) = m2.section_mut(SectionId::RefTable) {
+                    t.entries.push(e);
+                    new_ref = Some(t.entries.len() as u32 - 1);
+                }
+                if let (Some(idx), Some(SectionData::ResourceMeta(r))) = (new_ref, m2.section_mut(SectionId::ResourceMeta)) {
+                    if let Some(task) = r.resources.iter_mut().flat_map(|res| res.tasks.iter_mut()).next() {
+                        task.fb_ref_idx = vec![idx];
+                        out.push((format!("task-fb-ref:extreme-index:{ri}:{xi}:{all}"), m2));
+                    }
+                }
+            }
+        }
     }
     // amplification: small tables that reference each other many times - one reference with a long index segment,
     // named again and again by a task's FB list (every index is in bounds, so the container validates)
